@@ -6,7 +6,7 @@ import itertools
 import numpy as np
 from scipy import signal
 
-from vf import gen, probes
+from vf import gen, plumbing, probes
 
 PID = "C14"
 ANCHORS = ["pyoma2.setup.base:BaseSetup._decimate_data", "pyoma2.setup.base:BaseSetup._detrend_data", "pyoma2.setup.base:BaseSetup._filter_data",
@@ -36,7 +36,17 @@ def EXHAUSTIVE(tier):
     return False
 
 
+PLUMB_CLASSES = ['FDD', 'SSIcov', 'FDD_MS', 'SSIdat_MS']
+PLUMB_FIELDS = None
+REQUIRED_MONITORS = list(REQUIRED_MONITORS) + [f"plumbing:{s_}" for s_ in plumbing.SCENARIOS]
+REQUIRED_STATES = list(REQUIRED_STATES) + [f"plumbing scenario {s_}" for s_ in plumbing.SCENARIOS]
+
+
 def cases(tier, seed):
+    return _cases(tier, seed) + plumbing.cases(len(plumbing.SCENARIOS) * len(PLUMB_CLASSES) * (1 if tier == "quick" else 6), PLUMB_CLASSES)
+
+
+def _cases(tier, seed):
     L = 3 if tier == "quick" else 4
     seqs = [list(s) for n in range(1, L + 1) for s in itertools.product(range(len(OPS7)), repeat=n)]
     out = []
@@ -351,6 +361,8 @@ def run_sampled(ctx, case, kind):
 
 
 def run_case(ctx, case):
+    if case["cls"] == "plumbing":
+        return plumbing.run_case(ctx, case, gen.rng_of(case), PLUMB_FIELDS)
     c = case["cls"]
     if c.startswith("enumerated"):
         run_enumerated(ctx, case, c.split("_")[1])
